@@ -75,6 +75,7 @@ type aObs struct {
 	Laws   aLaws  `json:"laws"`
 	MakeOK bool   `json:"make_ok"` // MakeRemoteSource from parts accepted
 	MkRec  *aRec  `json:"make_rec,omitempty"`
+	MkLaws aLaws  `json:"make_laws"` // the print/parse laws on the value MakeRemoteSource returned
 	Err    string `json:"err"`
 	Panic  string `json:"panic"`
 }
@@ -240,7 +241,8 @@ func fixRec(r *aRec) {
 func runAddr(c *aCase) (obs *aObs) {
 	fixRec(c.Rec)
 	obs = &aObs{Case: c, Rec: &aRec{Kind: "none", QKeys: []string{}, QMulti: []string{}, Sub: []string{}},
-		MkRec: &aRec{Kind: "none", QKeys: []string{}, QMulti: []string{}, Sub: []string{}}, Laws: aLaws{ReparseOK: true, ReparseEqual: true, PrintIdem: true, SameKind: true, Derived: true, PairsOK: true}}
+		MkRec: &aRec{Kind: "none", QKeys: []string{}, QMulti: []string{}, Sub: []string{}}, Laws: aLaws{ReparseOK: true, ReparseEqual: true, PrintIdem: true, SameKind: true, Derived: true, PairsOK: true},
+		MkLaws: aLaws{ReparseOK: true, ReparseEqual: true, PrintIdem: true, SameKind: true, Derived: true, PairsOK: true}}
 	defer func() {
 		if r := recover(); r != nil {
 			obs.Panic = fmt.Sprint(r)
@@ -271,6 +273,7 @@ func runAddr(c *aCase) (obs *aObs) {
 				if r, merr := sourceaddrs.MakeRemoteSource(t, u, c.Parts.Sub); merr == nil {
 					obs.MakeOK = true
 					obs.MkRec = recOf(r)
+					obs.MkLaws = lawsOf(r, false)
 				}
 			}
 		}
@@ -381,7 +384,8 @@ func addrMain() int {
 			return
 		}
 		agree := obs.Panic == ""
-		lawsOK := obs.Laws.ReparseOK && obs.Laws.ReparseEqual && obs.Laws.PrintIdem && obs.Laws.SameKind && obs.Laws.Derived && obs.Laws.PairsOK
+		lawsOK := obs.Laws.ReparseOK && obs.Laws.ReparseEqual && obs.Laws.PrintIdem && obs.Laws.SameKind && obs.Laws.Derived && obs.Laws.PairsOK &&
+			obs.MkLaws.ReparseOK && obs.MkLaws.ReparseEqual && obs.MkLaws.PrintIdem && obs.MkLaws.SameKind && obs.MkLaws.Derived && obs.MkLaws.PairsOK
 		switch c.Op {
 		case "parse":
 			var e string
